@@ -194,11 +194,9 @@ def quiescence_check(run: Any, prop: str, spec: dict | None = None) -> list[dict
         if bad:
             stopped = {k for k, s in bad.items() if s == "STOPPED"}
             rest = {k: s for k, s in bad.items() if s != "STOPPED"}
-            only_stopped = bool(stopped) and all(s == "NOT_STARTED" for s in rest.values())
-            if only_stopped and spec is not None and rest:
-                from . import specs as _sp
-
-                only_stopped = all(_sp.ancestors(spec, k) & stopped for k in rest)
+            # mechanism: a STOPPED stage lets CompleteWorkflow report SUCCEEDED; whatever had not run
+            # yet stays NOT_STARTED (or is CANCELED by the late CancelStage of the stopped stage's failure path)
+            only_stopped = bool(stopped) and all(s in ("NOT_STARTED", "CANCELED") for s in rest.values())
             sig = f"{prop}/succeeded-with-stopped-stage" if only_stopped else f"{prop}/succeeded-with-unfinished-stage"
             out.append(viol(sig, f"workflow SUCCEEDED but {bad}"))
     term = [k for k, v in top.items() if v["status"] == "TERMINAL"]
